@@ -154,6 +154,7 @@ type world struct {
 	mon                                              *shipx.TimerMonitor
 	approveCalls, cancelCalls, closeCalls, appWrites int
 	delivered                                        map[string]int
+	class                                            string // names the class of a schedule scenario whose findings are keyed separately ("" otherwise)
 }
 
 func newWorld(c cfg) *world {
@@ -177,6 +178,9 @@ func newWorld(c cfg) *world {
 			simrt.Block("reader-idle", func() bool { return len(w.inbox) > 0 })
 			f := w.inbox[0]
 			w.inbox = w.inbox[1:]
+			if w.W.Closed {
+				continue // like the read pump, which looks at the state of the socket once more before it hands a frame on
+			}
 			w.busy = true
 			w.C.HandleIncomingWebsocketMessage(f)
 			w.busy = false
@@ -551,7 +555,7 @@ func (w *world) monitors(hist []string, from int, pre model.ShipMessageExchangeS
 			}
 		}
 		if termAt >= 0 && !isTerminal(model.ShipMessageExchangeState(s)) && i >= from {
-			simrt.Fail("C04|progress-after-terminal|"+shipx.StateName(model.ShipMessageExchangeState(s)), "state %s reported after the terminal outcome %s (event %s)", shipx.StateName(model.ShipMessageExchangeState(s)), evs[termAt].String(), lastEv)
+			simrt.Fail(w.c04key("progress-after-terminal|"+shipx.StateName(model.ShipMessageExchangeState(s))), "state %s reported after the terminal outcome %s (event %s)", shipx.StateName(model.ShipMessageExchangeState(s)), evs[termAt].String(), lastEv)
 		}
 		if termAt < 0 && isTerminal(model.ShipMessageExchangeState(s)) {
 			termAt = i
@@ -583,11 +587,11 @@ func (w *world) monitors(hist []string, from int, pre model.ShipMessageExchangeS
 				}
 				// a handler that was already sending when the end was detected may finish its own reply
 				if !ok {
-					simrt.Fail("C04|send-after-terminal", "frame %q written after the connection ended (%s) (event %s)", e.Arg, evs[endAt].String(), lastEv)
+					simrt.Fail(w.c04key("send-after-terminal"), "frame %q written after the connection ended (%s) (event %s)", e.Arg, evs[endAt].String(), lastEv)
 				}
 			}
 			if e.Kind == "setup" {
-				simrt.Fail("C04|setup-after-terminal", "SetupRemoteDevice called after the connection ended (%s)", evs[endAt].String())
+				simrt.Fail(w.c04key("setup-after-terminal"), "SetupRemoteDevice called after the connection ended (%s)", evs[endAt].String())
 			}
 		}
 		// no handshake timer left running; transport closed once no close delay is pending
@@ -729,6 +733,15 @@ func (w *world) monitors(hist []string, from int, pre model.ShipMessageExchangeS
 			simrt.Fail("C08|reader-wedged", "the receive loop is blocked inside the handler after %s (no bounded wait pending)", lastEv)
 		}
 	}
+}
+
+// c04key: findings of the schedule scenarios in which the user closes the connection while a message of the peer is
+// being handled are keyed as a class of their own (see known_findings.json)
+func (w *world) c04key(k string) string {
+	if w.class != "" {
+		return "C04|" + w.class + "|" + k
+	}
+	return "C04|" + k
 }
 
 func normalise(s string) string { return strings.Join(strings.Fields(s), "") }
@@ -894,7 +907,7 @@ func userRaceBody(ops []string, allow bool) func() {
 // decides. The expiry is handled by the timer goroutine of the library, the message by the read pump, the decision
 // by the caller's goroutine; every interleaving of them (within the bound) is judged by the usual monitors. The
 // peer then plays the rest of a cooperative handshake as far as the connection lets it.
-func inputRaceBody(c cfg, hist []string, other string, rest []string) func() {
+func inputRaceBody(c cfg, hist []string, first, other string, rest []string) func() {
 	alpha := map[string]msg{}
 	for _, m := range alphabetFor("core") {
 		alpha[m.id] = m
@@ -906,17 +919,8 @@ func inputRaceBody(c cfg, hist []string, other string, rest []string) func() {
 		for _, ev := range hist {
 			w.apply(ev, alpha)
 		}
-		ts := w.timers()
-		if len(ts) == 0 || !strings.Contains(ts[0].Label, "setHandshakeTimer") {
-			simrt.Outcome("no-handshake-timer")
-			return
-		}
-		simrt.Mark()
-		w.L.Evs = append(w.L.Evs, shipx.Ev{T: simrt.Elapsed(), Kind: "timer", Arg: ts[0].Label})
-		simrt.FireTimer(ts[0].ID)
-		switch {
-		case strings.HasPrefix(other, "D:"):
-			m := alpha[other[2:]]
+		deliver := func(id string) {
+			m := alpha[id]
 			if m.class == "data" {
 				w.dataIn = append(w.dataIn, payloadOf(m.id))
 				w.dataIDs = append(w.dataIDs, m.id)
@@ -924,6 +928,32 @@ func inputRaceBody(c cfg, hist []string, other string, rest []string) func() {
 			w.delivered[m.id]++
 			w.L.Evs = append(w.L.Evs, shipx.Ev{T: simrt.Elapsed(), Kind: "deliver", Arg: m.id})
 			w.inbox = append(w.inbox, m.frame)
+		}
+		ts := w.timers()
+		if first == "T0" && (len(ts) == 0 || !strings.Contains(ts[0].Label, "setHandshakeTimer")) {
+			simrt.Outcome("no-handshake-timer")
+			return
+		}
+		if first != "T0" && other == "CLOSE" {
+			w.class = "message-vs-user-close"
+		}
+		simrt.Mark()
+		if first == "T0" {
+			w.L.Evs = append(w.L.Evs, shipx.Ev{T: simrt.Elapsed(), Kind: "timer", Arg: ts[0].Label})
+			simrt.FireTimer(ts[0].ID)
+		} else {
+			deliver(first[2:])
+		}
+		switch {
+		case other == "REPORT":
+			// the write pump notices that the transport is gone (the socket is marked closed before the SHIP layer is told)
+			w.W.Closed = true
+			w.W.ClosedErr = errors.New("transport closed")
+			w.reported = true
+			w.L.Evs = append(w.L.Evs, shipx.Ev{T: simrt.Elapsed(), Kind: "transportdown"})
+			simrt.Go("pump-write", func() { w.C.ReportConnectionError(errors.New("transport error")) })
+		case strings.HasPrefix(other, "D:"):
+			deliver(other[2:])
 		case other == "APPROVE":
 			w.P.Paired = true
 			w.L.Evs = append(w.L.Evs, shipx.Ev{T: simrt.Elapsed(), Kind: "trust", Arg: "on"})
@@ -951,7 +981,7 @@ func inputRaceBody(c cfg, hist []string, other string, rest []string) func() {
 			w.apply(ev, alpha)
 		}
 		simrt.RunFor(70 * time.Second)
-		w.monitors(append(append([]string{}, hist...), "T0||"+other), 0, 0)
+		w.monitors(append(append([]string{}, hist...), first+"||"+other), 0, 0)
 		simrt.Outcome(shipx.StateName(w.state()))
 	}
 }
@@ -986,10 +1016,25 @@ func inputRaceScenarios(r *hx.Run) []hx.Scenario {
 			if !r.Thorough() && c.trust == "none" && k > 2 {
 				continue // without trust the handshake does not get further than the hello phase
 			}
-			for _, o := range others {
+			focus := []string{"user", "reader", "setHandshakeTimer", "pump-write"}
+			for _, o := range append(others, "REPORT") {
 				name := fmt.Sprintf("inputrace:%s/after=%d/T0||%s", c.name(), k, o)
-				out = append(out, hx.Scenario{Name: name, Body: inputRaceBody(c, seq[:k], o, seq[k:]), Bounds: simrt.B(pb, 0, 0),
-					Cfg: simrt.Config{MaxSteps: 200000, BranchAfterMark: true, BranchOnly: []string{"user", "reader", "setHandshakeTimer"}}})
+				out = append(out, hx.Scenario{Name: name, Body: inputRaceBody(c, seq[:k], "T0", o, seq[k:]), Bounds: simrt.B(pb, 0, 0),
+					Cfg: simrt.Config{MaxSteps: 200000, BranchAfterMark: true, BranchOnly: focus}})
+			}
+			// the next message of the handshake against the loss of the transport noticed by the write pump, and against the user
+			second := []string{"REPORT", "CLOSE"}
+			if c.trust == "none" && k >= 1 && k <= 2 {
+				second = append(second, "APPROVE", "CANCEL")
+			}
+			if c.server && c.trust == "paired" && k <= 2 {
+				// the user withdraws the trust while the message that gets the hello phase going (or over) is being handled
+				second = append(second, "CANCEL")
+			}
+			for _, o := range second {
+				name := fmt.Sprintf("inputrace:%s/after=%d/%s||%s", c.name(), k, seq[k], o)
+				out = append(out, hx.Scenario{Name: name, Body: inputRaceBody(c, seq[:k], seq[k], o, seq[k+1:]), Bounds: simrt.B(pb, 0, 0),
+					Cfg: simrt.Config{MaxSteps: 200000, BranchAfterMark: true, BranchOnly: focus}})
 			}
 		}
 	}
